@@ -613,10 +613,14 @@ bool JareckiLysyanskayaRVSS::Share
 		mpz_set_ui(rhs, n); // broadcast end marker
 		rbc->Broadcast(rhs);
 		complaints_counter.clear(), complaints_from.clear(); // reset for final complaint resolution
+		std::vector< std::vector<size_t> > complainers(n); // who complained against whom
 		for (size_t j = 0; j < n; j++)
 			complaints_counter.push_back(0); // initialize counter
 		for (std::vector<size_t>::iterator it = complaints.begin(); it != complaints.end(); ++it)
+		{
 			complaints_counter[*it]++; // count my own complaints
+			complainers[*it].push_back(i);
+		}
 		complaints.clear();
 		for (size_t j = 0; j < n; j++)
 		{
@@ -639,6 +643,7 @@ bool JareckiLysyanskayaRVSS::Share
 						err << "P_" << i << ": receiving complaint against P_" << who << " from P_" << j << std::endl;
 						complaints_counter[who]++;
 						dup.insert(std::pair<size_t, bool>(who, true)); // mark as counted for $P_j$
+						complainers[who].push_back(j);
 						if (who == i)
 							complaints_from.push_back(j);
 					}
@@ -684,6 +689,7 @@ bool JareckiLysyanskayaRVSS::Share
 			if (j != i)
 			{
 				size_t cnt = 0;
+				std::vector<size_t> answered; // complaints answered by $P_j$
 				do
 				{
 					if (!rbc->DeliverFrom(lhs, j))
@@ -695,6 +701,7 @@ bool JareckiLysyanskayaRVSS::Share
 					size_t who = mpz_get_ui(lhs);
 					if (who >= n)
 						break; // end marker received
+					answered.push_back(who);
 					if (!rbc->DeliverFrom(foo, j))
 					{
 						err << "P_" << i << ": receiving foo failed; complaint against P_" << j << std::endl;
@@ -755,6 +762,15 @@ bool JareckiLysyanskayaRVSS::Share
 					cnt++;
 				}
 				while (cnt <= n);
+				// a dealer who leaves a complaint unanswered is disqualified
+				for (std::vector<size_t>::iterator it = complainers[j].begin(); it != complainers[j].end(); ++it)
+				{
+					if (std::find(answered.begin(), answered.end(), *it) == answered.end())
+					{
+						err << "P_" << i << ": complaint of P_" << *it << " not answered; complaint against P_" << j << std::endl;
+						complaints.push_back(j);
+					}
+				}
 			}
 		}
 		Qual.clear();
